@@ -605,8 +605,9 @@ impl M {
 			Op::Signal(s) => one(Ctl::Signal(*s)),
 			Op::ToWait => one(Ctl::NextEnding),
 			Op::Delete | Op::DeleteNow => two(Ctl::Stop, Ctl::Delete),
-			// `Continue` is generated for C04 only, which is judged by the invariant monitor alone (never reaches the model)
-			Op::Run | Op::MarkerPrio(_) | Op::Continue => one(Ctl::Marker),
+			// `Continue` is generated for C04 only and `SetAsyncHook` scenarios are judged by invariants alone: neither
+			// reaches the model
+			Op::Run | Op::MarkerPrio(_) | Op::Continue | Op::SetAsyncHook(_) => one(Ctl::Marker),
 			Op::RunAsync { hold_ms } => one(Ctl::AsyncHold(*hold_ms)),
 			Op::Gate => one(Ctl::Gate(self.gate_epoch)),
 			Op::SetHook(h) => one(Ctl::SetHook(*h)),
